@@ -451,7 +451,14 @@ func (c *canon) path(p *Path, rename map[string]string) string {
 // which is itself canonical for structurally corresponding CFGs, and then sorted so that
 // if-inversion does not matter.
 func canonPaths(an *Analysis, fn *ssa.Function, rename map[string]string) ([]string, string) {
+	return canonPathsOpt(an, fn, rename, false)
+}
+
+func canonPathsOpt(an *Analysis, fn *ssa.Function, rename map[string]string, distinct bool) ([]string, string) {
 	fp := an.PathsOf(fn)
+	if distinct {
+		fp = an.PathsDistinct(fn)
+	}
 	if fp.Unproven != "" {
 		return nil, fp.Unproven
 	}
@@ -466,3 +473,84 @@ func canonPaths(an *Analysis, fn *ssa.Function, rename map[string]string) ([]str
 }
 
 var _ = ssa.Function{}
+
+// distinctArgsAtAllCallSites: fn is unexported, never used as a value, and every call site in its package passes
+// provably distinct objects for every pair of pointer parameters of the same type (one of them allocated on the
+// calling path, or the path has compared them unequal). Returns the number of call sites examined.
+func distinctArgsAtAllCallSites(P *Program, an *Analysis, fi *FuncInfo) (bool, int) {
+	if fi == nil || fi.Obj.Exported() {
+		return false, 0
+	}
+	fn := fi.SSA
+	// pairs of same-typed pointer parameters
+	type pair struct{ i, j int }
+	var pairs []pair
+	for i := range fn.Params {
+		for j := i + 1; j < len(fn.Params); j++ {
+			_, pi := fn.Params[i].Type().Underlying().(*types.Pointer)
+			_, pj := fn.Params[j].Type().Underlying().(*types.Pointer)
+			if pi && pj && types.Identical(fn.Params[i].Type(), fn.Params[j].Type()) {
+				pairs = append(pairs, pair{i, j})
+			}
+		}
+	}
+	if len(pairs) == 0 {
+		return false, 0
+	}
+	sites := 0
+	for _, caller := range P.Funcs {
+		if caller.Pkg != fi.Pkg {
+			continue
+		}
+		for _, cf := range append([]*ssa.Function{caller.SSA}, caller.Closures...) {
+			// any use other than as a static callee disqualifies
+			for _, b := range cf.Blocks {
+				for _, in := range b.Instrs {
+					for _, op := range in.Operands(nil) {
+						if f, ok := (*op).(*ssa.Function); ok && (f == fn || f.Origin() == fn) {
+							if call, isCall := in.(ssa.CallInstruction); !isCall || call.Common().Value != *op {
+								return false, sites
+							}
+						}
+					}
+				}
+			}
+			fp := an.PathsOf(cf)
+			if fp.Unproven != "" {
+				return false, sites
+			}
+			for _, p := range fp.Paths {
+				for k := range p.Events {
+					e := &p.Events[k]
+					if (e.Kind != "call" && e.Kind != "go" && e.Kind != "defer") || e.SSAFn == nil {
+						continue
+					}
+					if e.SSAFn != fn && e.SSAFn.Origin() != fn {
+						continue
+					}
+					sites++
+					for _, pr := range pairs {
+						if pr.j >= len(e.Args) {
+							return false, sites
+						}
+						a, b := e.Args[pr.i], e.Args[pr.j]
+						ok := (a.Op == "alloc" && a.Key() != b.Key()) || (b.Op == "alloc" && a.Key() != b.Key())
+						for ci, cd := range p.Conds {
+							if ci >= e.NCond {
+								break
+							}
+							r := cd.Rel()
+							if r.B != nil && r.Op == "!=" && ((r.A.Key() == a.Key() && r.B.Key() == b.Key()) || (r.A.Key() == b.Key() && r.B.Key() == a.Key())) {
+								ok = true
+							}
+						}
+						if !ok {
+							return false, sites
+						}
+					}
+				}
+			}
+		}
+	}
+	return sites > 0, sites
+}
